@@ -31,6 +31,11 @@ FORBIDDEN = re.compile(
 # --------------------------------------------------------------------------- numbers
 
 
+class NonFiniteOutput(ValueError):
+    """a number that was about to be sent to the model as an exact rational is NaN / inf.  Generated inputs are finite (modules with
+    NaN cells encode them before this point), so during an observation this is a non-finite OUTPUT of the implementation."""
+
+
 def rat(x) -> str:
     """exact rational string of a python number (every finite double is a rational)"""
     if isinstance(x, Fraction):
@@ -41,7 +46,7 @@ def rat(x) -> str:
         return f"{x}/1"
     x = float(x)
     if not math.isfinite(x):
-        raise ValueError(f"non-finite value {x!r} cannot be sent as a rational")
+        raise NonFiniteOutput(f"non-finite value {x!r} cannot be sent as a rational")
     n, d = x.as_integer_ratio()
     return f"{n}/{d}"
 
